@@ -97,6 +97,37 @@ func hullGen(r *rand.Rand, n int, tier string, emit func(Case)) {
 				pts = append(pts, geom.XY{X: float64(l.N/2 + k*dx), Y: float64(l.N/2 + k*dy)}.AsPoint())
 			}
 			g = geom.NewMultiPoint(pts).AsGeometry()
+		case 2, 3: // collinear runs with unequal gaps along slanted directions, as hull edges and as whole inputs
+			l.N = 64
+			var pts []geom.Point
+			for e, ne := 0, 1+r.Intn(3); e < ne; e++ {
+				a, b := 1+r.Intn(7), 1+r.Intn(7)
+				if r.Intn(2) == 0 {
+					b = -b
+				}
+				x0, y0 := 20+r.Intn(10), 30+r.Intn(5)
+				for _, k := range [][]int{{0, 1, 3}, {0, 1, 4}, {0, 2, 3}, {0, 1, 2, 4}, {0, 3, 4}, {0, 1, 6}}[r.Intn(6)] {
+					x, y := x0+k*a, y0+k*b
+					if x >= 0 && x <= 64 && y >= 0 && y <= 64 {
+						pts = append(pts, geom.XY{X: float64(x), Y: float64(y)}.AsPoint())
+					}
+				}
+			}
+			if r.Intn(2) == 0 {
+				pts = append(pts, l.pt().AsPoint())
+			}
+			r.Shuffle(len(pts), func(i, j int) { pts[i], pts[j] = pts[j], pts[i] })
+			g = geom.NewMultiPoint(pts).AsGeometry()
+			if r.Intn(3) == 0 && len(pts) >= 2 {
+				var xs []geom.XY
+				for _, p := range pts {
+					xy, _ := p.XY()
+					xs = append(xs, xy)
+				}
+				if ls := geom.NewLineString(seqOf(xs)); ls.Validate() == nil {
+					g = ls.AsGeometry()
+				}
+			}
 		default:
 			g = l.any(5)
 		}
